@@ -76,6 +76,9 @@ impl TlsClientHelloReader {
                 "First byte is not TLS Handshake (0x16), got 0x{:02x}. Might be continuation data.",
                 content_type
             );
+            // Parsing always starts at the first buffered byte, so these bytes can never become a
+            // ClientHello: drop them instead of accumulating the rest of the connection
+            self.buffer.clear();
             return Ok(None);
         }
 
